@@ -132,5 +132,3 @@ theorem dropOld_spec {w : Nat → Nat} (l : List Nat) {h : Heap}
       exact ⟨this.1.trans hsh, this.2⟩
 end
 end OxiddModel.Reorder.SwapStore
-
-#print axioms OxiddModel.Reorder.SwapStore.levelSwapLoop_spec
